@@ -23,7 +23,8 @@ import modelgen
 import vlib
 from checks import c06
 
-THEOREMS = ["Yardl.C05.conversion_total", "Yardl.C05.unchanged_types_convert_exactly", "Yardl.C05.integer_conversion_checks_range", "Yardl.C05.every_integer_has_a_range", "Yardl.C05.record_fields_convert_by_name",
+THEOREMS = ["Yardl.C05.conversion_total", "Yardl.C05.unchanged_types_convert_exactly", "Yardl.C05.integer_conversion_checks_range", "Yardl.C05.every_integer_has_a_range", "Yardl.C05.added_field_conversions", "Yardl.C05.added_field_round_trip",
+            "Yardl.C05.integer_widening_round_trip", "Yardl.C05.record_fields_convert_by_name",
             "Yardl.C05.integer_narrowing_overflows"]
 
 
@@ -186,6 +187,10 @@ def directed_chains():
     # same width, other signedness: the upper half of the unsigned range and the negative numbers have no counterpart
     chain("directed:same-width-sign-change-32", f, [["a", P("uint32")]] + f[1:], [["a", P("int32")]] + f[1:], [["a", P("uint32")]] + f[1:])
     chain("directed:same-width-sign-change-64-8", [["a", P("uint64")], ["b", P("uint8")]], [["a", P("int64")], ["b", P("int8")]], [["a", P("uint64")], ["b", P("uint8")]])
+    # removing (and adding back) fields whose types need their own serializers in the compatibility code
+    un = ["union", True, [["x", P("int16")], ["y", P("string")]]]
+    un2 = ["union", False, [["p", P("float32")], ["q", ["vec", P("uint8"), None]]]]
+    chain("directed:remove-and-add-union-fields", f + [["u", un], ["w", un2]], f + [["w", un2]], f + [["u", un]])
     chain("directed:integer-to-string-and-back", f, [["a", P("string")]] + f[1:], [f[0], ["b", P("string")], f[2], f[3]])
     chain("directed:make-optional-and-back", f, [["a", ["opt", P("int32")]]] + f[1:], f)
     chain("directed:optional-to-union-and-back", f, f[:3] + [["d", ["union", True, [["x", P("int16")], ["y", P("string")]]]]], f)
@@ -262,7 +267,7 @@ def exercise(report, lab, lean, seed, n_sets):
         for k in range(n_sets):
             bufs = [g.rng.choice([1, 2, 3, 64]) for _ in range(nstreams)]
             # (a) read: a stream of version old_i through the newest reader, re-written at the newest version
-            vals = g.gen_step_vals(oldp)
+            vals = _alternate(g, oldp, g.gen_step_vals(oldp))
             parts = [g.gen_partition(len(v[1])) if v[0] == "stream" else [] for v in vals]
             enc = lean.ask({"op": "enc_proto", "proto": oldp, "parts": parts, "vals": vals, "schema": lab.schemas[old_i]})
             inp, outp = os.path.join(lab.root, f"r{old_i}_{k}.in"), os.path.join(lab.root, f"r{old_i}_{k}.out")
@@ -271,7 +276,7 @@ def exercise(report, lab, lean, seed, n_sets):
             rc, err = lab.run_cpp("cur", inp, outp, bufs)
             _judge(report, lab, lean, "read", old_i, newest, lab.schemas[last], vals, want, status, rc, err, outp, seed, changed)
             # (b) write: newest-version values written for version old_i
-            vals = g.gen_step_vals(newest)
+            vals = _alternate(g, newest, g.gen_step_vals(newest))
             parts = [g.gen_partition(len(v[1])) if v[0] == "stream" else [] for v in vals]
             enc = lean.ask({"op": "enc_proto", "proto": newest, "parts": parts, "vals": vals, "schema": lab.schemas[last]})
             inp, outp = os.path.join(lab.root, f"w{old_i}_{k}.in"), os.path.join(lab.root, f"w{old_i}_{k}.out")
@@ -279,6 +284,22 @@ def exercise(report, lab, lean, seed, n_sets):
             want, status = _conv_steps(lean, False, newest, oldp, vals)
             rc, err = lab.run_cpp(f"v{old_i}", inp, outp, bufs)
             _judge(report, lab, lean, "write", old_i, oldp, lab.schemas[old_i], vals, want, status, rc, err, outp, seed, changed)
+
+
+def _alternate(g, proto, vals):
+    """stream items alternate between a random value and the minimal value of the type (null optionals, first union case,
+    empty containers), at least three items: state a conversion leaves behind for one item would show in the next"""
+    out = []
+    for s, v in zip(proto, vals):
+        if s["stream"]:
+            items = list(v[1])
+            while len(items) < 3:
+                items.append(g.gen_value(s["ty"], 3))
+            items = [modelgen.shrink_value(s["ty"], x) if i % 2 == 1 else x for i, x in enumerate(items)]
+            out.append(["stream", items])
+        else:
+            out.append(v)
+    return out
 
 
 def _judge(report, lab, lean, direction, old_i, dst_proto, dst_schema, vals, want, status, rc, err, outp, seed, changed):
